@@ -90,6 +90,7 @@ func LongBody(cfg LongCfg, st *LongStats) func(c *mc.Chooser) *mc.Failure {
 		tag := map[int]int{}
 		P := 0
 		allowedFor, allowed := -1, 0
+		oracle := NewDepthOracle(cfg.Beta)
 		has := func(k int) (int, bool) {
 			i := sort.SearchInts(ref, k)
 			return i, i < len(ref) && ref[i] == k
@@ -255,7 +256,7 @@ func LongBody(cfg LongCfg, st *LongStats) func(c *mc.Chooser) *mc.Failure {
 			if cfg.Depth && cfg.Beta < 1000 && len(ref) > 0 {
 				d := MaxDepth(t)
 				if P != allowedFor {
-					allowedFor, allowed = P, MaxAllowedDepth(P, cfg.Beta)
+					allowedFor, allowed = P, oracle.Allowed(P)
 				}
 				if d > allowed && !DepthAllowed(d, P, cfg.Beta) {
 					return mc.Failf(si, "after %v: depth %d exceeds log_{2000/%d}(P=%d)+1 = max %d (Len=%d)", o, d, 1000+cfg.Beta, P, allowed, len(ref))
